@@ -49,6 +49,10 @@ CHECKS = {
    tech="TLA+ spec CacheLayer.tla (transparency as the only property, uninterpreted Fresh): TLC exhaustive model check over histories; TLC-derived tours executed on the real Cached/MonitoredDatabase with the uncached engine as oracle; TLC trace validation of walker and random histories",
    text="TLC explores every history (<= 4/5 steps) of search, monitored search, entry loss, invalidate, enable/disable and database replacement over case-variant queries and option vectors and checks that every answer equals what the uncached engine would return and that no entry outlives a replacement (defect switches for a key that ignores an option field and for a missing invalidation regenerate the counterexamples); every transition of the dumped graph is executed on the real caching/monitoring layer with the model's option fields mapped onto pairs of the 11 real option fields, and long random histories incl. the shipped database are recorded; TLC validates each history: answer = fresh answer, and a cache hit only for an identity stored since the last invalidation.",
    note="Capacity/TTL over-approximated in the trace spec; logical clock via VerifAdvance."),
+ "C11": dict(cat="model_checking", ref="DESIGN.md section 5, C11",
+   tech="TLA+ specs Conc.tla (micro-step lock model, exhaustive) and TraceLRUConc.tla (linearisability of recorded concurrent histories against LRU.tla via silent Lin steps, depth-first TLC); concurrent searches recorded under the Go race detector and validated by TLC (TraceConcSearch.tla)",
+   text="TLC explores all interleavings of the micro-steps of cache lookups, statistics reads, metric increments and get-or-create under the reader/writer lock (lock downgrade, non-atomic increment and missing re-check are design switches that regenerate lost-update counterexamples); hundreds of short concurrent histories recorded from the real LRUCache are checked for linearisability against the atomic LRU specification; goroutines searching one database directly, through the cache and through the monitor while others invalidate, sweep and read statistics run under the race detector, and TLC checks that every answer equals the answer obtained alone and that the monitor's totals equal the number of monitored searches.",
+   note="Data races are decided by the race detector (outside the specification); schedules are sampled."),
 }
 NOT_APPLICABLE = {}
 
